@@ -32,6 +32,8 @@ RULE = ('Each shard draws scenarios (extinction law, n filters with pairwise dif
         'vector_evaluations counts (vector, scenario) pairs. Non-trivial = the slice contains a non-singular vector (>=2 fitted '
         'points in 2-D, >=1 in 3-D) that also contains one of {0,9,2,3,4}; distinct = distinct canonical JSON.')
 RULE += (' ' + 'Also varied: a ~1 mJy flag-1 point whose flag-4 twin carries exactly 0.0; fitters built without the bands flagged 0 (also with remove_resolved=True).')
+RULE += (' ' + 'For a third of the vectors the Source object that was fitted is edited in place (one band switched to flag 0, values of ignored bands replaced) and fitted again; it must fit like a fresh source with those flags.')
+RULE += (' ' + 'A quarter of the scenarios use whole-number photometry passed as integer arrays (the ignored values of one variant are non-integral, which changes the dtype of the whole array).')
 ASSUMPTIONS = [
     'singular vectors (<2 fitted points in 2-D / none in 3-D) are enumerated but only n_data is asserted on them',
     'paired runs are compared per model name with 1e-9 relative tolerance (+1e-13*cond on parameters): a legal '
@@ -391,6 +393,34 @@ def check_vector(env, vec, labels):
             env.same(ia, ib, refs, 'flags %r%s: fitting without the bands flagged 0 at all' % (
                 vec, ', remove_resolved=True' if rr else ''), 'c03:flag0_band_matters')
         labels.add('rel_band_absent')
+    # 7. the Source object that was fitted above is edited in place and fitted again: a band switched off (flag -> 0) on
+    #    the living object stops influencing the fit, exactly as for a source created with that flag vector
+    if (sum(vec) + 2 * len(vec)) % 3 == 0:
+        on = [j for j, f in enumerate(vec) if f not in IGN]
+        j = on[(sum(vec) + len(vec)) % len(on)]
+        vec2 = list(vec)
+        vec2[j] = 0
+        nfit2 = sum(1 for f in vec2 if f in (1, 4))
+        src2 = make_source(sc, vec2)
+        ok = nfit2 >= (2 if sc['mode'] == '2d' else 1)
+        if ok and sc['mode'] == '2d':
+            ok = not any(r.singular or r.cond > 1e10 for r in env.refs(src2))
+        if ok:
+            refs2 = env.refs(src2)
+            so.valid[j] = 0
+            with must_succeed('Fitter.fit (same Source object after valid[%d] = 0, flags were %r)' % (j, vec)), quiet():
+                info_e = env.fitter.fit(so)
+            _, info_f = env.fit(src2, 'fresh source with band %d flagged 0' % j)
+            env.same(info_e, info_f, refs2, 'flags %r, then valid[%d] = 0 on the fitted Source object vs a fresh source with '
+                     'those flags' % (vec, j), 'c03:in_place_flag_edit_ignored')
+            for i in [i for i, f in enumerate(vec2) if f in IGN and so.flux.dtype.kind == 'f' and so.error.dtype.kind == 'f']:
+                so.flux[i] = sc['pools'][i]['ignB'][0]
+                so.error[i] = sc['pools'][i]['ignB'][1]
+            with must_succeed('Fitter.fit (same Source object, ignored values replaced in place)'), quiet():
+                info_g = env.fitter.fit(so)
+            env.same(info_g, info_f, refs2, 'flags %r: values of ignored points replaced in place on the fitted Source object' % (
+                vec2,), 'c03:ignored_values_matter')
+            labels.add('rel_in_place_edit_after_fit')
     return bool(has & {0, 9, 2, 3, 4})
 
 
